@@ -9,7 +9,7 @@ import (
 
 func init() {
 	register(&propDef{
-		ID: "C10", Level: "other", Run: withShared(runC10, share{"C03", runC03, ruleIs("elements-ordered", "sorted-input", "ace-low-only-in-wheel")}),
+		ID: "C10", Level: "other", Run: withShared(runC10, share{"C03", runC03, ruleIs("elements-ordered", "sorted-input", "ace-low-only-in-wheel", "category-order", "tables-read-only")}, share{"C07", runC07, ruleIs("no-hidden-state")}),
 		Explanation: "The published hand of a player is structurally one evaluation of that player's own cards: Type, Cards and Power stored for a player all derive from the single best-hand value computed for that same player (Type through the category symbol table, Power from its score, Cards from its cards); the enumerator is given that player's HoleCards, the table's Board and Meta.RequiredHoleCardsCount, and every enumerated selection is scored with Meta.CombinationPowers; the value published is the first element of the selections sorted by score in descending order (or the last of an ascending sort); every street that deals cards re-evaluates all players before the next event; the strength the showdown compares is the published Power of the same player. The enumeration is complete in shape: the entry produces the full nested product of (hole cards, required count) and (board, 5 minus the count) selections, or every 5 of hole+board; the k-of-n enumerator decodes every generated mask over all card positions; the mask generator's start, bound and step agree with the increasing enumeration of k-subsets on the grid 1 <= k <= n <= 9 (closed-form evaluation of the loop's SSA expressions, no loop is run) and the bit scanner reports position i exactly when bit i is set. Does NOT decide that the scorer ranks the selections truthfully (that is C03) nor anything for more than 9 cards to choose from.",
 		Trusted:     commonTrusted,
 		Assumptions: []string{"sort.Slice orders by the less function given (documented)"},
